@@ -7,7 +7,7 @@
     that is the recorded known finding PendingExcessAtObservation, see known_findings.json;
     the metamorphic theorem for the single-threaded cache outside that class is
     Unsync/UPurity.v.) *)
-From MM Require Import Sync.SModel Unsync.UInvDefs Unsync.UInv Contract.Glue Contract.Purity.
+From MM Require Import Sync.SModel Unsync.UInvDefs Unsync.UInv Unsync.UPurity Contract.Glue Contract.Purity.
 
 Theorem C15_sync_observations_pure : forall c h h', obs_inserted h h' ->
   forall r r1 outs, srun_ops c r h = Ok (r1, outs) ->
@@ -39,6 +39,29 @@ Theorem C15_unsync_maintenance_frame : forall c s now s1 ts,
   sublist (u_prob s1) (u_prob s) /\ sublist (u_wo s1) (u_wo s).
 Proof. exact maintain_subset. Qed.
 
+(** single-threaded cache, metamorphic theorem: for ALL histories h and ALL ways h' of inserting
+    contains_key / iter calls, if the key universe is smaller than one maintenance batch (no
+    purge is truncated) and no INSERTED contains_key starts while an excess created by a
+    weight-growing update is pending ([quiet_insertion]), every operation of h answers the same
+    in h' *)
+Theorem C15_unsync_observations_pure : forall c h h' r1 outs r2 outs',
+  cfg_ok c -> N.of_nat (length h') < 2 ^ 24 -> small_universe h' ->
+  quiet_insertion c urun_init h h' ->
+  urun_ops c urun_init h = Ok (r1, outs) ->
+  urun_ops c urun_init h' = Ok (r2, outs') ->
+  outs_match_u h h' outs outs'.
+Proof. exact unsync_observations_pure. Qed.
+
+(** the excluded class is real (known finding PendingExcessAtObservation): with an update-created
+    excess pending, an inserted contains_key evicts and a later iteration differs *)
+Theorem C15_unsync_refuted_with_pending_excess :
+  exists c h h' r1 outs r2 outs', obs_inserted_u h h' /\
+    urun_ops c urun_init h = Ok (r1, outs) /\ urun_ops c urun_init h' = Ok (r2, outs') /\
+    ~ outs_match_u h h' outs outs'.
+Proof. exact unsync_contains_not_pure_with_pending_excess. Qed.
+
+Print Assumptions C15_unsync_observations_pure.
+Print Assumptions C15_unsync_refuted_with_pending_excess.
 Print Assumptions C15_sync_observations_pure.
 Print Assumptions C15_sync_observations_removable.
 Print Assumptions C15_sync_contains_pure.
